@@ -2,7 +2,7 @@
     Statements only; proofs are in GqlTyping/ProofsTyping.v and ProofsExec.v. *)
 From Coq Require Import List ZArith String Bool Arith.
 From Thunder Require Import Lib.Json GqlTyping.Types GqlTyping.Parse GqlTyping.ProofsParse GqlTyping.ProofsExec
-     GqlTyping.Typing GqlTyping.ProofsTyping.
+     GqlTyping.Typing GqlTyping.ProofsTyping GqlTyping.ProofsValid.
 Import ListNotations.
 Open Scope string_scope.
 Open Scope list_scope.
@@ -19,24 +19,20 @@ Theorem response_conforms :
 Proof. exact (fun sch tbl fuel => proj1 (eval_conforms sch tbl fuel) false). Qed.
 Print Assumptions response_conforms.
 
-(** (c) Completeness of rejection.  Full statement:
-      forall sch root q tn' l', applies sch (q_frags q) root (q_sel q) tn' l' -> bad sch tn' l' ->
-                                forall n, prepare repaired sch root q <> ROk n.
-    [applies] = the parts of the query PrepareQuery walks into (sub-selections of known fields, every
-    fragment under an object type, the fragments on a member under a union); [bad] = an unknown field,
-    a plain field other than __typename on a union, a sub-selection on a scalar or enum, no
-    sub-selection on an object or union.
-    Proved for every variant of the traversal WITHOUT the (type, selection set) memo that C15-fix-4
-    adds (fix21 v = false: the code as it was, and the same validation logic).  Missing for the
-    memoised traversal: that skipping an already-seen pair never hides a failure (needs the
-    topological order certified by Parse); on every run the check compares the two models' verdicts
-    and the memoised model with graphql.PrepareQuery on all generated queries. *)
-Theorem rejection_complete_partial :
+(** (c) Completeness of rejection, for every variant of the traversal – in particular the memoised
+    PrepareQuery of the repaired code.  [applies] = the parts of the query PrepareQuery walks into
+    (sub-selections of known fields, every fragment under an object type, the fragments on a member
+    under a union); [bad] = an unknown field, a plain field other than __typename on a union, a
+    sub-selection on a scalar or enum, no sub-selection on an object or union.  Skipping an
+    already-seen (type, fragment) pair never hides a failure: the set of pairs a successful run ends
+    with justifies itself (every pair's body is well-formed relative to the set), so every applicable
+    part is well-formed relative to it. *)
+Theorem rejection_complete :
   forall (v : variant) (sch : schema) (root : string) (q : query) (tn' : string) (l' : list titem),
-    fix21 v = false -> applies sch (q_frags q) root (q_sel q) tn' l' -> bad sch tn' l' ->
+    applies sch (q_frags q) root (q_sel q) tn' l' -> bad sch tn' l' ->
     forall n, prepare v sch root q <> ROk n.
-Proof. exact rejection_complete. Qed.
-Print Assumptions rejection_complete_partial.
+Proof. exact rejection_complete_all. Qed.
+Print Assumptions rejection_complete.
 
 (** (a) Progress.  Full statement (NOT proved):
       forall sch root q data fuel, prepare repaired sch root q = ROk n -> has_type sch false (TNamed root) data ->
